@@ -6,6 +6,7 @@ From NV Require Import Gen.Keywords.
 From NV Require Import Props.C13.
 
 Check (C13_escape_roundtrip : forall s rest : str, lex_string (print_string s ++ rest) = LexStatic s rest).
+Check (C13_lex_string_fuel_enough : forall inp : str, lex_string inp <> LexErr EFuel).
 Check (C13_escape_is_single_pass : forall s : str, escape s = esc_pass s).
 Check (C13_escape_is_generated_chain : forall s : str, apply_replaces escape_replaces s = Some (escape s)).
 Check (C13_escape_char_is_generated_table : forall c : N, escape_char c = assoc_N escape_char_table c).
